@@ -1,6 +1,7 @@
 package main
 
 import (
+	"fmt"
 	"math"
 	"sort"
 
@@ -143,19 +144,42 @@ type c03Write struct {
 	bk    [][2]uint64 // bound bits, cum
 }
 
+const c03Sentinel = 12345.678
+
+var c03CallerSliceWritten int
+
 func c03RunImpl(bs []float64, ops []float64, isWrite []bool) (panicked bool, outs []c03Write) {
 	var h prometheus.Histogram
+	var in, backing []float64
 	func() {
 		defer func() {
 			if e := recover(); e != nil {
 				panicked = true
 			}
 		}()
-		var in []float64
 		if bs != nil {
-			in = append([]float64{}, bs...) // non-nil even when empty
+			// the layout is handed over as a sub-slice with spare capacity (sentinels behind it): the caller's
+			// array must never be written to, neither inside the layout nor behind it
+			backing = make([]float64, len(bs)+3)
+			copy(backing, bs)
+			for k := len(bs); k < len(backing); k++ {
+				backing[k] = c03Sentinel
+			}
+			in = backing[:len(bs)] // non-nil even when empty
 		}
 		h = prometheus.NewHistogram(prometheus.HistogramOpts{Name: "h", Help: "h", Buckets: in})
+	}()
+	defer func() {
+		for k := range backing {
+			want := c03Sentinel
+			if k < len(bs) {
+				want = bs[k]
+			}
+			if math.Float64bits(backing[k]) != math.Float64bits(want) {
+				c03CallerSliceWritten++
+				break
+			}
+		}
 	}()
 	if panicked {
 		return
@@ -244,6 +268,9 @@ func runC03(c *cli.Ctx) error {
 			tags = append(tags, "interleaved-writes")
 		}
 		w.Add(emit.Tup(emit.FL(bs), emit.L(opT), impl), nobs >= 2 && !p, tags...)
+	}
+	if c03CallerSliceWritten > 0 {
+		w.Extra["direct_failures"] = []map[string]interface{}{{"index": -1, "what": fmt.Sprintf("in %d cases the caller's Buckets array was written to (inside the layout or in its spare capacity)", c03CallerSliceWritten)}}
 	}
 	return w.Flush()
 }
